@@ -130,32 +130,16 @@ Proof.
   intros E. assert (length (skipn i s) = S (length rest)) as L by now rewrite E. rewrite skipn_length in L. lia.
 Qed.
 
-Lemma sc_lookup_loop_matches (gs : list gframe) (k : bstr) :
-  st_small (go_len gs) ->
-  forall (rest : list gframe) (srest : scope) (i : nat),
-    skipn i gs = rest -> (i <= length gs)%nat -> scope_rel rest srest ->
-    src_soyhtml_scope_lookup_loop1 (S (length rest)) value (rev gs) k (go_len gs) (Z.of_nat i) =
-    Some (match sc_lookup srest k with Some v => go_ret v | None => go_exit (go_len gs) end).
+(* scope.lookup walks the stack from its end: gotrans translates every spelling of that walk as one list loop over
+   `rev s` (gotrans_norm.go: revRange), so this is an induction on the model's stack *)
+Lemma sc_lookup_loop_matches (k : bstr) (gs : list gframe) (s : scope) :
+  scope_rel gs s ->
+  src_soyhtml_scope_lookup_loop1 value gs k =
+  Some (match sc_lookup s k with Some v => go_ret v | None => go_exit tt end).
 Proof.
-  intros Hs rest. induction rest as [|g rest IH]; intros srest i E Hi R.
-  - inversion R; subst. assert (i = length gs) as ->.
-    { assert (length (skipn i gs) = 0%nat) as L by now rewrite E. rewrite skipn_length in L. lia. }
-    cbn [src_soyhtml_scope_lookup_loop1 sc_lookup]. unfold go_len at 1 2.
-    replace (Z.ltb _ _) with false by lia. reflexivity.
-  - inversion R as [|g' f rest' srest' Rf R']; subst.
-    pose proof (st_skipn_lt _ _ _ _ E) as Hlt.
-    cbn [length]. remember (S (length rest)) as fu eqn:Efu. cbn [src_soyhtml_scope_lookup_loop1].
-    replace (Z.ltb (Z.of_nat i) (go_len gs)) with true by (unfold go_len; lia).
-    rewrite st_go_len_rev. unfold st_small in Hs.
-    rewrite (st_wrap64 (go_len gs - Z.of_nat i)) by (unfold go_len in *; lia).
-    rewrite st_wrap64 by (unfold go_len in *; lia).
-    replace (go_len gs - Z.of_nat i - 1)%Z with (go_len gs - 1 - Z.of_nat i)%Z by lia.
-    rewrite go_index_rev by exact Hlt. rewrite (st_nth_error_skipn _ _ _ _ E).
-    cbn [go_bind]. cbv zeta. cbn [sc_lookup]. destruct g as [m e]. destruct Rf as [_ Hm]. cbn [fst] in Hm.
-    rewrite Hm. destruct (assoc_s k (f_vars f)) as [v|]; [reflexivity|].
-    rewrite st_wrap64 by (unfold go_len in *; lia).
-    replace (Z.of_nat i + 1)%Z with (Z.of_nat (S i)) by lia.
-    subst fu. apply IH; [exact (st_skipn_S _ _ _ _ E)|lia|exact R'].
+  intros R. induction R as [|g f gs s Rf R IH]; [reflexivity|].
+  cbn [src_soyhtml_scope_lookup_loop1 sc_lookup]. cbv zeta. destruct g as [m e]. destruct Rf as [_ Hm]. cbn [fst] in Hm.
+  rewrite Hm. destruct (assoc_s k (f_vars f)) as [v|]; [reflexivity|exact IH].
 Qed.
 
 Definition st_lookup_or_undef (s : scope) (k : bstr) : value :=
@@ -165,11 +149,8 @@ Theorem sc_lookup_matches_source gs s k :
   scope_rel gs s -> st_small (go_len gs) ->
   src_soyhtml_scope_lookup value VUndef (rev gs) k = Some (st_lookup_or_undef s k).
 Proof.
-  intros R Hs. unfold src_soyhtml_scope_lookup. cbv zeta. rewrite st_go_len_rev.
-  pose proof (sc_lookup_loop_matches gs k Hs gs s 0%nat eq_refl ltac:(lia) R) as H.
-  replace (Z.to_nat (go_len gs)) with (length gs) by (unfold go_len; lia).
-  change (Z.of_nat 0) with 0%Z in H. rewrite H. unfold st_lookup_or_undef.
-  destruct (sc_lookup s k); reflexivity.
+  intros R _. unfold src_soyhtml_scope_lookup. cbv zeta. rewrite rev_involutive, (sc_lookup_loop_matches k gs s R).
+  unfold st_lookup_or_undef. destruct (sc_lookup s k); reflexivity.
 Qed.
 
 (* m_lookup is that, plus the count of unbound names that the hook notifyUnbound feeds in the harness's build *)
@@ -185,53 +166,54 @@ Proof.
 Qed.
 
 (* ---- alldata ---- *)
+(* alldata walks the stack from its end and uses the position too (s[:i+1]): gotrans translates every spelling of such a
+   walk as ONE list loop over `rev s` with a key that counts from the end (gotrans_norm.go: revRange), the position is
+   computed from the key in the body.  The proof follows the MODEL's stack; the upper bound of the slice is whatever
+   the source writes, as long as lia sees that it is length - key. *)
+Lemma st_slice_rev_skipn {A} (gs : list A) (i : nat) :
+  st_small (go_len gs) -> (i <= length gs)%nat ->
+  go_slice_l (rev gs) 0%Z (Z.of_nat (length gs - i)) = Some (rev (skipn i gs)).
+Proof.
+  intros Hs Hi. unfold st_small in Hs. unfold go_slice_l. rewrite st_go_len_rev.
+  replace (orb _ _) with false by (unfold go_len in *; lia).
+  change (Z.to_nat 0) with O. cbn [skipn]. rewrite Z.sub_0_r, Nat2Z.id.
+  rewrite firstn_rev. do 3 f_equal. lia.
+Qed.
+
+Ltac st_unwrap64 :=
+  repeat match goal with
+         | |- context [go_wrap_s 64%Z ?x] => rewrite (st_wrap64 x) by (unfold go_len in *; lia)
+         end.
+
 Lemma sc_alldata_loop_matches (gs : list gframe) :
   st_small (go_len gs) ->
   forall (rest : list gframe) (srest : scope) (i : nat),
     skipn i gs = rest -> (i <= length gs)%nat -> scope_rel rest srest ->
     match sc_alldata srest with
-    | Some s' => src_soyhtml_scope_alldata_loop1 (S (length rest)) value (rev gs) (go_len gs) (Z.of_nat i) =
+    | Some s' => src_soyhtml_scope_alldata_loop1 value rest (rev gs) (Z.of_nat i) =
                  Some (go_ret (rev (skipn (length gs - length s') gs))) /\ scope_rel (skipn (length gs - length s') gs) s'
-    | None => src_soyhtml_scope_alldata_loop1 (S (length rest)) value (rev gs) (go_len gs) (Z.of_nat i) =
-              Some (go_exit (go_len gs))
+    | None => src_soyhtml_scope_alldata_loop1 value rest (rev gs) (Z.of_nat i) = Some (go_exit tt)
     end.
 Proof.
   intros Hs rest. induction rest as [|g rest IH]; intros srest i E Hi R.
-  - inversion R; subst. cbn [sc_alldata].
-    assert (i = length gs) as ->.
-    { assert (length (skipn i gs) = 0%nat) as L by now rewrite E. rewrite skipn_length in L. lia. }
-    cbn [src_soyhtml_scope_alldata_loop1]. unfold go_len at 1 2. replace (Z.ltb _ _) with false by lia. reflexivity.
+  - inversion R; subst. reflexivity.
   - inversion R as [|g' f rest' srest' Rf R']; subst.
     pose proof (st_skipn_lt _ _ _ _ E) as Hlt.
     pose proof (scope_rel_length _ _ R') as HL.
     assert (length rest = length gs - S i)%nat as Hrest.
     { assert (length (skipn i gs) = S (length rest)) as L by now rewrite E. rewrite skipn_length in L. lia. }
     cbn [sc_alldata]. destruct g as [m e]. destruct Rf as [He Hm]. cbn [snd] in He.
-    cbn [length]. remember (S (length rest)) as fu eqn:Efu.
-    unfold st_small in Hs.
-    assert (Hstep : src_soyhtml_scope_alldata_loop1 (S fu) value (rev gs) (go_len gs) (Z.of_nat i) =
-                    if e then Some (go_ret (rev (skipn i gs)))
-                    else src_soyhtml_scope_alldata_loop1 fu value (rev gs) (go_len gs) (Z.of_nat (S i))).
-    { cbn [src_soyhtml_scope_alldata_loop1].
-      replace (Z.ltb (Z.of_nat i) (go_len gs)) with true by (unfold go_len; lia).
-      rewrite st_go_len_rev. cbv zeta.
-      rewrite (st_wrap64 (go_len gs - Z.of_nat i)) by (unfold go_len in *; lia).
-      rewrite (st_wrap64 (go_len gs - Z.of_nat i - 1)) by (unfold go_len in *; lia).
-      replace (go_len gs - Z.of_nat i - 1)%Z with (go_len gs - 1 - Z.of_nat i)%Z by lia.
-      rewrite go_index_rev by exact Hlt. rewrite (st_nth_error_skipn _ _ _ _ E). cbn [go_bind].
-      destruct e.
-      - rewrite st_wrap64 by (unfold go_len in *; lia).
-        unfold go_slice_l. rewrite st_go_len_rev. replace (orb _ _) with false by (unfold go_len in *; lia).
-        cbn [go_bind]. f_equal. f_equal. change (Z.to_nat 0) with O. cbn [skipn].
-        replace (Z.to_nat (go_len gs - 1 - Z.of_nat i + 1 - 0)) with (length gs - i)%nat by (unfold go_len; lia).
-        rewrite firstn_rev. f_equal. f_equal. lia.
-      - rewrite st_wrap64 by (unfold go_len in *; lia).
-        replace (Z.of_nat i + 1)%Z with (Z.of_nat (S i)) by lia. reflexivity. }
-    rewrite <- He. destruct e.
-    + rewrite Hstep. cbn [length]. replace (length gs - S (length srest'))%nat with i by lia.
+    cbn [src_soyhtml_scope_alldata_loop1]. cbv beta iota zeta. rewrite <- He. rewrite ?st_go_len_rev.
+    pose proof Hs as Hs'. unfold st_small in Hs'.
+    destruct e.
+    + st_unwrap64.
+      match goal with |- context [go_slice_l _ 0%Z ?hi] =>
+        replace hi with (Z.of_nat (length gs - i)) by (unfold go_len in *; lia) end.
+      rewrite (st_slice_rev_skipn gs i Hs) by lia. cbn [go_bind length].
+      replace (length gs - S (length srest'))%nat with i by lia.
       split; [reflexivity|]. rewrite E. constructor; [split; [exact He|exact Hm]|exact R'].
-    + specialize (IH srest' (S i) (st_skipn_S _ _ _ _ E) ltac:(lia) R'). subst fu.
-      destruct (sc_alldata srest') as [s'|]; rewrite Hstep; exact IH.
+    + specialize (IH srest' (S i) (st_skipn_S _ _ _ _ E) ltac:(lia) R').
+      replace (Z.of_nat i + 1)%Z with (Z.of_nat (S i)) by lia. exact IH.
 Qed.
 
 Theorem sc_alldata_matches_source gs s :
@@ -241,9 +223,8 @@ Theorem sc_alldata_matches_source gs s :
   | None => src_soyhtml_scope_alldata value (rev gs) = None          (* panic("impossible") *)
   end.
 Proof.
-  intros R Hs. unfold src_soyhtml_scope_alldata. cbv zeta. rewrite st_go_len_rev.
+  intros R Hs. unfold src_soyhtml_scope_alldata. cbv zeta. rewrite rev_involutive.
   pose proof (sc_alldata_loop_matches gs Hs gs s 0%nat eq_refl ltac:(lia) R) as H.
-  replace (Z.to_nat (go_len gs)) with (length gs) by (unfold go_len; lia).
   change (Z.of_nat 0) with 0%Z in H.
   destruct (sc_alldata s) as [s'|].
   - destruct H as [H R']. rewrite H. eexists. split; [reflexivity|exact R'].
